@@ -239,6 +239,21 @@ func init() {
 	}
 	ops["dump"] = opDump
 	ops["walk"] = opWalk
+	ops["setlastkey"] = func(op *proto.Op, res *proto.Res) error {
+		if sess.RelationService == nil {
+			return fmt.Errorf("DRIVER: no relation service")
+		}
+		storage.VerifSetLastKey(sess.RelationService, uint32(op.N))
+		return nil
+	}
+	ops["filesize"] = func(op *proto.Op, res *proto.Res) error {
+		fi, err := os.Stat(op.S)
+		if err != nil {
+			return err
+		}
+		res.N = fi.Size()
+		return nil
+	}
 	ops["hdr"] = func(op *proto.Op, res *proto.Res) error {
 		if sess.RelationService == nil {
 			return fmt.Errorf("DRIVER: no relation service")
